@@ -132,7 +132,7 @@ func (w *ViewWorld) putDDoc(h int, changed, withV2 bool) error {
 
 func (w *ViewWorld) Alphabet(tier int) []string {
 	ops := []string{"Set/k/1a", "Set/k/2", "Set/j/1", "Set/j/arr", "SetRaw/k", "Delete/k", "Delete/j", "SetXattrs/k", "SetXattrs/j", "WriteTombstone/k", "Add/k",
-		"Purge", "SetWithMeta/k/above", "SetWithMeta/k/below", "DeleteWithMeta/j/above", "PutDDoc/same", "PutDDoc/changed/h1", "PutDDoc/nov2", "Query", "QueryStale", "DropRecreate"}
+		"Purge", "SetWithMeta/k/above", "SetWithMeta/k/below", "SetWithMeta/k/last", "DeleteWithMeta/j/above", "DeleteWithMeta/j/last", "PutDDoc/same", "PutDDoc/changed/h1", "PutDDoc/nov2", "Query", "QueryStale", "DropRecreate"}
 	if tier > 0 {
 		ops = append(ops, "Incr/k", "RemoveXattrs/k", "WriteWithXattrs/j", "Touch/k")
 	}
@@ -160,6 +160,17 @@ func (w *ViewWorld) cas(key string) (cur, max, min uint64) {
 		max = d.BucketLastCas
 	}
 	return
+}
+
+func (w *ViewWorld) lastCas() uint64 {
+	d, err := rosmar.VerifDumpAll(w.h[0])
+	must(err)
+	for _, cl := range d.Collections {
+		if cl.Name == "sc.A" {
+			return cl.LastCas
+		}
+	}
+	return 0
 }
 
 func (w *ViewWorld) Apply(op string) (string, []Violation) {
@@ -205,10 +216,22 @@ func (w *ViewWorld) Apply(op string) (string, []Violation) {
 				return "skip", nil
 			}
 		}
+		if parts[2] == "last" {
+			nc = w.lastCas() // exactly the CAS every up-to-date view is indexed to
+			if nc == 0 {
+				return "skip", nil
+			}
+		}
 		err = a.SetWithMeta(ctx, "k", cur, nc, 0, []byte(`{"_s":{"n":7}}`), []byte(`{"v":7,"t":"m"}`), sgbucket.FeedDataTypeJSON)
 	case "DeleteWithMeta":
 		cur, max, _ := w.cas("j")
-		err = a.DeleteWithMeta(ctx, "j", cur, max+0x10000, 0, []byte(`{"_s":{"n":8}}`))
+		nc := max + 0x10000
+		if parts[2] == "last" {
+			if nc = w.lastCas(); nc == 0 {
+				return "skip", nil
+			}
+		}
+		err = a.DeleteWithMeta(ctx, "j", cur, nc, 0, []byte(`{"_s":{"n":8}}`))
 	case "PutDDoc":
 		switch parts[1] {
 		case "same":
